@@ -43,9 +43,8 @@ bool LRUSet<K>::after_emplace(
   } else {
     // item already existed. the key must match already; just update the size
     // and move the item to the front of the lru
-    ssize_t size_delta = static_cast<ssize_t>(size) - static_cast<ssize_t>(i.size);
+    this->total_size += size - i.size;
     i.size = size;
-    this->total_size += size_delta;
     this->unlink_item(&i);
     this->link_item(&i);
     return false;
